@@ -398,12 +398,17 @@ def _ref_world(repo: Repo) -> Tuple[EM.ExprWorld, ClassWorld]:
 
 
 def _run_solve(ew: EM.ExprWorld, cw: ClassWorld, kinds: List[str], keys: List[bool], models: List[Tuple[Any, ...]],
-               order: List[Tuple[Any, ...]], native: Optional[Tuple[Any, List[Any]]] = None, clobber: bool = False):
+               order: List[Tuple[Any, ...]], native: Optional[Tuple[Any, List[Any]]] = None, clobber: bool = False, stale: bool = False):
+    def stale_of(kind: str) -> Any:
+        return True if kind == "b" else 299
+
     vs = []
     for i, k in enumerate(kinds):
         v = ew.leaf(k, f"v{i}")
         v.classes |= {"BoolVar"} if k == "b" else {"IntVar"}
-        v.attrs.update(id=i, sol=None, lo=0, hi=300)
+        # `sol` may still hold what an earlier find_answer()/solve() on the same Solver left there: half of the scenarios start from
+        # such stale values (chosen different from every model), which solve() must not rely on
+        v.attrs.update(id=i, sol=(stale_of(k) if stale else None), lo=0, hi=300)
         vs.append(v)
     # the program: exactly the assignments in `models` (a DNF over the variables, as DSL trees)
     def lit(v: Obj, x: Any) -> Obj:
@@ -452,7 +457,7 @@ def check_semantics(repo: Repo, rep: Report, tier: str = "quick") -> bool:
             rest = [u for u in itertools.product(*doms) if u not in models]
             # non-models come first in the backend's enumeration: a dropped constraint shows as a wrong model
             for clobber in (False, True):
-              r, vs, be, selfo = _run_solve(ew, cw, kinds, keys, models, rest[:2] + list(models) + rest[2:], clobber=clobber)
+              r, vs, be, selfo = _run_solve(ew, cw, kinds, keys, models, rest[:2] + list(models) + rest[2:], clobber=clobber, stale=not clobber)
               n += 1
               want_sat = bool(models)
               bad = None
